@@ -71,7 +71,8 @@ fn history(r: &mut Rng, len: usize, limit: usize, which: u64) -> (Vec<usize>, us
 fn sizes_case(ctx: &Ctx, idx: u64, r: &mut Rng) -> Vec<CaseOut> {
     let _ = ctx;
     let which_c = if idx < STEER { idx % 4 } else { r.below(4) };
-    let dict = *r.pick(&[4096u32, 4096, 8192, 65536]);
+    // also dictionary sizes that are no powers of two (headers store them rounded up)
+    let dict = *r.pick(&[4096u32, 4096, 8192, 65536, 5000, 6000, 3 << 12, 70_000, 96 << 10]);
     let configured: u64 = match r.below(5) {
         0 => 1,
         1 => dict as u64,
